@@ -138,3 +138,31 @@ cbv zeta; split.
 - split=> //.
   by move=> i j _; rewrite trmx1 mul1mx !mxE eq_sym.
 Qed.
+
+(* non-vacuity of T6: a fully degenerate pencil (A = M = 1, both kept eigenvalues 1, the full mask), cotangents g_i = x_i and the
+   solution v_i = 0 of the (here identically zero) shifted systems meet every hypothesis *)
+Lemma dot_delta (R : comRingType) n (i j : 'I_n) : dot (delta_mx i ord0 : 'cV[R]_n) (delta_mx j ord0) = (i == j)%:R.
+Proof.
+rewrite /dot trmx_delta mul_delta_mx_cond; case: (i == j); rewrite ?mulr1n ?mulr0n ?mxtrace0 //.
+by rewrite /mxtrace big_ord1 mxE !eqxx.
+Qed.
+
+Example C06_implicit_degenerate_hypotheses_satisfiable :
+  let A : 'M[rat]_2 := 1%:M in let M : 'M[rat]_2 := 1%:M in
+  let x := fun i : 'I_2 => (delta_mx i ord0 : 'cV[rat]_2) in let e := fun _ : 'I_2 => (1 : rat) in
+  let mask : rel 'I_2 := fun _ _ => true in let g := x in let v := fun _ : 'I_2 => (0 : 'cV[rat]_2) in
+  [/\ A^T = A, M^T = M, (forall i, A *m x i = e i *: (M *m x i)) & (forall i j, dot (x i) (M *m x j) = (i == j)%:R)] /\
+  [/\ (forall i j, mask i j -> e i = e j), (forall i j, mask i j -> dot (x i) (g j) = dot (x j) (g i)) &
+      (forall i, A *m v i - e i *: (M *m v i) = - (g i - \sum_j (if mask j i then dot (x j) (g i) else 0) *: (M *m x j)))].
+Proof.
+cbv zeta; split; split=> //.
+- by rewrite trmx1.
+- by rewrite trmx1.
+- by move=> i; rewrite !mul1mx scale1r.
+- by move=> i j; rewrite mul1mx dot_delta.
+- by move=> i j _; rewrite !dot_delta eq_sym.
+- move=> i; rewrite !mulmx0 scaler0 subr0.
+  rewrite (eq_bigr (fun j => (j == i)%:R *: delta_mx j ord0)); last by move=> j _; rewrite dot_delta mul1mx.
+  rewrite (bigD1 i) //= eqxx scale1r big1 ?addr0 ?subrr ?oppr0 // => j Hj.
+  by rewrite (negbTE Hj) scale0r.
+Qed.
